@@ -110,16 +110,21 @@ def compare(result, want):
     return None
 
 
-def parse(lines, tolerant):
+def parse(lines, tolerant, work=None):
+    """``work``: the list object handed to the parser (a fresh copy of
+    ``lines`` unless the caller wants to hand over the same one again)."""
     ns = sut.load()
+
+    if work is None:
+        work = list(lines)
 
     try:
         if not tolerant and len(lines) % 2:
             # the documented default
-            return ns.unified_diffs.get_unified_diff_hunks(list(lines)), None
+            return ns.unified_diffs.get_unified_diff_hunks(work), None
 
         return ns.unified_diffs.get_unified_diff_hunks(
-            list(lines), ignore_garbage=tolerant), None
+            work, ignore_garbage=tolerant), None
     except Exception as e:
         return None, e
 
@@ -276,7 +281,26 @@ def run_damaged(case, st):
             st.cls('damage-after-stop-point')
             return
 
-    result, err = parse(lines, case['tolerant'])
+    work = list(lines)
+    result, err = parse(lines, case['tolerant'], work)
+
+    if err is not None:
+        # the caller parses the very same list once more (after logging the
+        # first failure, say): the same line is named
+        _r2, err2 = parse(lines, case['tolerant'], work)
+
+        if type(err2) is not type(err) or \
+                getattr(err2, 'line_num', None) != getattr(err, 'line_num',
+                                                           None) or \
+                getattr(err2, 'line', None) != getattr(err, 'line', None):
+            st.violation('second-parse-of-the-same-list-differs',
+                         'first: %r (line %r), second: %r (line %r); the '
+                         'list %s' % (err, getattr(err, 'line_num', None),
+                                      err2, getattr(err2, 'line_num', None),
+                                      'was changed by the parser'
+                                      if work != list(lines)
+                                      else 'is unchanged'), case)
+            return
 
     if err is None:
         st.violation('damaged-hunk-accepted:' + case['damage']['kind'],
